@@ -54,14 +54,7 @@ func runC11R3R4(c *Ctx, r3, r4 string) {
 	splitName := c.Fn(rule, "pkg/sessions/cookie.splitCookieName")
 	if cclear != nil && setCookie != nil && makeCookie != nil && nameOptF != nil && cookieNameF != nil && splitName != nil {
 		// pattern
-		var pattern *ssa.Call
-		for _, b := range cclear.Blocks {
-			for _, in := range b.Instrs {
-				if call, ok := in.(*ssa.Call); ok && (isStd(&call.Call, "regexp", "MustCompile") || isStd(&call.Call, "regexp", "Compile")) {
-					pattern = call
-				}
-			}
-		}
+		pattern := findPatternCall(c, cclear, 0)
 		key := "pattern|" + fnKey(cclear)
 		if pattern == nil {
 			c.bad(rule, key, cclear.Blocks[0].Instrs[0], "cookie store Clear no longer matches presented cookie names against a name(_N)? pattern: split parts or stale cookies are left behind", nil, 0)
@@ -546,4 +539,32 @@ func runManagerClearRule(c *Ctx, rule string) {
 		}
 	}
 
+}
+
+// findPatternCall returns the regexp.MustCompile/Compile call that builds the name pattern used by fn: in fn itself or
+// in a module helper it calls (the walker inlines such a helper, so the call value is the one MatchString resolves to).
+func findPatternCall(c *Ctx, fn *ssa.Function, depth int) *ssa.Call {
+	var found *ssa.Call
+	for _, b := range fn.Blocks {
+		for _, in := range b.Instrs {
+			if call, ok := in.(*ssa.Call); ok && (isStd(&call.Call, "regexp", "MustCompile") || isStd(&call.Call, "regexp", "Compile")) {
+				found = call
+			}
+		}
+	}
+	if found != nil || depth >= 2 {
+		return found
+	}
+	for _, b := range fn.Blocks {
+		for _, in := range b.Instrs {
+			if call, ok := in.(*ssa.Call); ok {
+				if sc := call.Call.StaticCallee(); sc != nil && c.P.InModule(sc) && len(sc.Blocks) > 0 && sc != fn {
+					if f := findPatternCall(c, sc, depth+1); f != nil {
+						return f
+					}
+				}
+			}
+		}
+	}
+	return nil
 }
